@@ -54,7 +54,7 @@ def run(ctx):
                 bad = 'flat position of (i,j,a) is not a*R*C + j*R + i'
             elif sorted(map(int, d.get('idx', []))) != list(range(R * C * T)):
                 bad = 'positions are not a bijection onto 0..size-1'
-            elif d.get('transposed') != wantT:
+            elif d.get('transposed') != wantT or d.get('transposed_const') != wantT or d.get('idx_const') != want:
                 bad = 'transposed view does not expose (i,j,a) as (j,i,a)'
             elif d.get('diag') != [str(a * R + i) for a in range(T) for i in range(R)]:
                 bad = 'diagonal tensor is not the C=1 layout'
